@@ -656,6 +656,12 @@ class PowerExpression(BinaryExpression):
         return self.make_ml_tag("msup", "{}{}".format(left_ml, right_ml), self.classes)
 
     def operate(self, one: NumberType, two: NumberType) -> NumberType:
+        if type(one) is int and type(two) is int:
+            # Python integers are exact at any magnitude; numpy would wrap at 64 bits
+            # and refuses negative integer exponents.
+            if two >= 0:
+                return one**two
+            return np.power(float(one), two)
         return np.power(one, two)
 
     def __str__(self) -> str:
